@@ -21,6 +21,15 @@ type c09Case struct {
 	Ops     []string `json:"ops"`
 	Pattern string   `json:"pattern,omitempty"`
 	Leave   string   `json:"leave,omitempty"` // esc | ret | abort
+	Dels    int      `json:"dels,omitempty"`  // isearch: characters deleted from the search text after it was typed
+	// nav-calls: several Readline calls on the same Shell; each types T, walks, and accepts what
+	// the buffer then holds
+	Calls []c09Call `json:"calls,omitempty"`
+}
+
+type c09Call struct {
+	T   string   `json:"t"`
+	Ops []string `json:"ops"`
 }
 
 var c09Hists = [][]string{
@@ -52,7 +61,7 @@ func c09Gen(r *rand.Rand, tier string, idx int) any {
 	c.W, c.H = 80, 24
 	c.Inputrc = "set history-autosuggest off\nset convert-meta off\nset input-meta on\nset output-meta on\n"
 	c.Hist = pick(r, c09Hists)
-	c.Kind = pick(r, []string{"nav", "nav", "prefix", "substring", "isearch"})
+	c.Kind = pick(r, []string{"nav", "nav", "prefix", "substring", "isearch", "nav-calls"})
 	multi := false
 	for _, e := range c.Hist {
 		if strings.Contains(e, "\n") {
@@ -83,10 +92,29 @@ func c09Gen(r *rand.Rand, tier string, idx int) any {
 		for i := 0; i < n; i++ {
 			c.Ops = append(c.Ops, pfx+pick(r, []string{"search-back", "search-back", "search-fwd"}))
 		}
+	case "nav-calls":
+		ops := []string{"prev", "next", "first", "last", "prev", "next", "prev"}
+		for k, nc := 0, 2+r.Intn(3); k < nc; k++ {
+			// (texts differ from call to call: a typed text equal to the newest entry would make
+			// "end of history" ambiguous for the model)
+			call := c09Call{T: pick(r, []string{"", "", "new line " + fmt.Sprint(k), "typed then left " + fmt.Sprint(k), "git" + fmt.Sprint(k)})}
+			for i, n := 0, r.Intn(7); i < n; i++ {
+				call.Ops = append(call.Ops, pick(r, ops))
+			}
+			c.Calls = append(c.Calls, call)
+		}
 	case "isearch":
-		c.T = pick(r, []string{"", "typed", "git"})
+		c.T = pick(r, []string{"", "typed", "git", "ec", "gi", "ls", "fo", "he"})
+		if r.Intn(3) == 0 {
+			c.Dels = -1 // the whole search text is deleted again
+		} else if r.Intn(4) == 0 {
+			c.Dels = 1
+		}
 		c.Pattern = pick(r, []string{"g", "git", "echo", "ECHO", "o", "zzz", "([", "(", "a.b", "a+b", ".", "^e", "c$", "wö", "世", "[", "\\"})
 		n := r.Intn(4)
+		if c.Dels != 0 {
+			n = 0 // (a repeated search key may end the search: the deletions would edit the line)
+		}
 		c.Ops = append(c.Ops, "start-"+pick(r, []string{"back", "fwd"}))
 		for i := 0; i < n; i++ {
 			c.Ops = append(c.Ops, pick(r, []string{"again-back", "again-back", "again-fwd"}))
@@ -121,6 +149,17 @@ func c09Run(env *fw.Env, raw json.RawMessage) fw.Outcome {
 		plan = append(plan, sess.Step{W: "\x02", Tag: "back"})
 	}
 	first := len(plan)
+	// isearch: what is left of the search text after the deletions
+	dels := c.Dels
+	if dels < 0 || dels > len([]rune(c.Pattern)) {
+		dels = len([]rune(c.Pattern))
+	}
+	effPattern := string([]rune(c.Pattern)[:len([]rune(c.Pattern))-dels])
+	if c.Kind == "nav-calls" {
+		c09NavCalls(env, &c, s, &o)
+		o.O.Sample = map[string]any{"kind": c.Kind, "history": c.Hist, "calls": c.Calls}
+		return o.O
+	}
 	switch c.Kind {
 	case "isearch":
 		for _, op := range c.Ops {
@@ -137,6 +176,9 @@ func c09Run(env *fw.Env, raw json.RawMessage) fw.Outcome {
 				plan = append(plan, sess.Step{W: "\x13", Tag: op})
 			}
 		}
+		for i := 0; i < dels; i++ {
+			plan = append(plan, sess.Step{W: "\x7f", Tag: "delete"})
+		}
 		switch c.Leave {
 		case "esc":
 			plan = append(plan, sess.Step{W: "\x1b", Tag: "leave"})
@@ -151,7 +193,7 @@ func c09Run(env *fw.Env, raw json.RawMessage) fw.Outcome {
 		}
 	}
 	res := s.Call(plan, retExit)
-	ctx := fmt.Sprintf("kind=%s history=%q T=%q back=%d ops=%v pattern=%q leave=%s", c.Kind, E, c.T, c.Back, c.Ops, c.Pattern, c.Leave)
+	ctx := fmt.Sprintf("kind=%s history=%q T=%q back=%d ops=%v pattern=%q deleted=%d leave=%s", c.Kind, E, c.T, c.Back, c.Ops, c.Pattern, dels, c.Leave)
 	if !stdFailures(&o, res, "history-command-failed: "+ctx) {
 		o.O.Sample = map[string]any{"ctx": ctx}
 		return o.O
@@ -275,13 +317,15 @@ func c09Run(env *fw.Env, raw json.RawMessage) fw.Outcome {
 			o.O.Events++
 			o.Cover(fmt.Sprintf("isearch|%s|%s|%s|again%d", c.Leave, histClass, patClass(c.Pattern), len(c.Ops)-1))
 			okBuf := final == c.T
-			if c.Leave != "abort" {
-				re, err := regexp.Compile("(?i)" + c.Pattern)
+			// with the whole search text deleted again nothing is searched for: only the
+			// in-progress text is legitimate
+			if c.Leave != "abort" && effPattern != "" {
+				re, err := regexp.Compile("(?i)" + effPattern)
 				for _, e := range E {
 					if final != e {
 						continue
 					}
-					if strings.Contains(strings.ToLower(e), strings.ToLower(c.Pattern)) || (err == nil && re.MatchString(e)) {
+					if strings.Contains(strings.ToLower(e), strings.ToLower(effPattern)) || (err == nil && re.MatchString(e)) {
 						okBuf = true
 					}
 				}
@@ -307,8 +351,11 @@ func c09Run(env *fw.Env, raw json.RawMessage) fw.Outcome {
 				for _, e := range E {
 					distinct[e] = true
 				}
-				if patClass(c.Pattern) == "invalid-regexp" {
+				if patClass(effPattern) == "invalid-regexp" {
 					sig += "|invalid-regexp"
+				}
+				if dels > 0 {
+					sig += fmt.Sprintf("|search-text-%s", map[bool]string{true: "deleted-entirely", false: "partly-deleted"}[effPattern == ""])
 				}
 				if len(distinct) == 1 && final == E[0] {
 					sig = "isearch-on-a-history-with-one-distinct-entry-inserts-it-whatever-the-pattern"
@@ -336,6 +383,98 @@ func c09Run(env *fw.Env, raw json.RawMessage) fw.Outcome {
 	}
 	o.O.Sample = map[string]any{"kind": c.Kind, "history": E, "T": c.T, "ops": c.Ops, "pattern": c.Pattern, "leave": c.Leave}
 	return o.O
+}
+
+// c09NavCalls: several calls on the same Shell. Each call types its text, walks through the
+// history and accepts what the buffer then holds; the history model grows by the accepted line
+// (unless blank or equal to the newest entry). In every call the entries must show in order,
+// most recent first, and the text being typed must come back below the newest entry.
+func c09NavCalls(env *fw.Env, c *c09Case, s *sess.Session, o *fw.Out) {
+	E := append([]string{}, c.Hist...)
+	for ci, call := range c.Calls {
+		var plan []sess.Step
+		if call.T != "" {
+			plan = append(plan, sess.Step{W: call.T, Tag: "type"})
+		}
+		first := len(plan)
+		for _, op := range call.Ops {
+			plan = append(plan, sess.Step{W: c09Keys[op], Tag: op})
+		}
+		res := s.Call(plan, retExit)
+		ctx := fmt.Sprintf("kind=nav-calls call %d/%d history now=%q T=%q ops=%v (initial history %q)", ci+1, len(c.Calls), E, call.T, call.Ops, c.Hist)
+		if !stdFailures(o, res, "history-command-failed: "+ctx) {
+			return
+		}
+		after := map[int]*sess.Snap{}
+		for i := range res.Waits {
+			w := &res.Waits[i]
+			if w.Kind == "main" {
+				after[w.Step-1] = w
+			}
+		}
+		n := len(E)
+		p := 0
+		want := call.T
+		for i := first; i < len(plan); i++ {
+			w, ok := after[i]
+			if !ok {
+				break
+			}
+			switch plan[i].Tag {
+			case "prev":
+				if p < n {
+					p++
+				}
+			case "next":
+				if p > 0 {
+					p--
+				}
+			case "first":
+				if n > 0 {
+					p = n
+				}
+			case "last":
+				p = 0
+			}
+			want = call.T
+			if p > 0 {
+				want = E[n-p]
+			}
+			if plan[i].Tag == "last" && n > 0 && w.Line == E[n-1] && w.Line != want {
+				p, want = 1, E[n-1]
+			}
+			o.O.Events++
+			o.Cover(fmt.Sprintf("nav-calls|call%d|%s|p%d", min(ci+1, 3), plan[i].Tag, min(p, 4)))
+			if w.Line != want {
+				sig := "navigation-shows-wrong-entry|" + plan[i].Tag + "|later-call"
+				if ci == 0 {
+					sig = "navigation-shows-wrong-entry|" + plan[i].Tag
+				}
+				if p == 0 {
+					sig = "in-progress-text-not-restored|" + plan[i].Tag
+				}
+				o.Viol(sig, ctx+fmt.Sprintf(" step %d (%s): expected %q (position %d of %d), buffer is %q", i-first, plan[i].Tag, want, p, n, w.Line))
+				return
+			}
+		}
+		if !res.Returned || res.Err != "" {
+			o.Inc("a call of a multi-call walk did not return a line")
+			return
+		}
+		if res.Line != want {
+			o.Viol("accepted-line-is-not-the-buffer-shown|nav-calls", ctx+fmt.Sprintf(": returned %q, the buffer was %q", res.Line, want))
+			return
+		}
+		if t := strings.TrimSpace(res.Line); t != "" && (len(E) == 0 || E[len(E)-1] != t) {
+			E = append(E, t)
+		}
+		// the source holds the model
+		cur := dumpSrc(s.Sh.History.Current())
+		if !eqStrings(cur, E) {
+			o.Viol("history-differs-from-the-model-after-a-call|nav-calls", ctx+fmt.Sprintf(": source %q, model %q", cur, E))
+			return
+		}
+	}
 }
 
 func patClass(p string) string {
